@@ -141,8 +141,17 @@ fn check_word_through_parser(ctx: &mut Ctx, w: u32, be: bool, msin: u8) {
 }
 
 fn check_htyp(ctx: &mut Ctx) {
+    // the interpreter is ~10^4 times slower: it sees every 16th byte (the residue rotates with the seed)
+    let miri = ctx.miri();
+    let residue = (ctx.seed % 16) as u8;
     for b in 0..=255u8 {
+        if miri && b % 16 != residue {
+            continue;
+        }
         for variant in 0..6u8 {
+            if miri && variant == 3 {
+                continue;
+            }
             let ueh = b & 1 != 0;
             let hl = headers_len(b);
             let payload: Vec<u8> = match variant {
@@ -225,7 +234,12 @@ fn check_htyp(ctx: &mut Ctx) {
 }
 
 fn check_msin(ctx: &mut Ctx) {
+    let miri = ctx.miri();
+    let residue = (ctx.seed % 8) as u8;
     for b in 0..=255u8 {
+        if miri && b % 8 != residue {
+            continue;
+        }
         ctx.eval();
         ctx.shape(&("msin", b), true);
         let exp = mtype_of(b);
@@ -294,7 +308,7 @@ impl Monitor for M {
         let mut accepted = 0u64;
         if i < wb {
             ctx.obs("chunks.typeinfo_enumerated_blocks");
-            let n = if light { 2048 } else { BLOCK };
+            let n = if ctx.miri() { 96 } else if light { 2048 } else { BLOCK };
             if ctx.tier == Tier::Thorough && !light {
                 // block i = all words with high half i
                 for lo in 0..n {
@@ -305,7 +319,7 @@ impl Monitor for M {
                 let pat = HIGH_PATTERNS[(i / 4) as usize % 16];
                 let lo_base = (i % 4) * BLOCK;
                 for lo in 0..n {
-                    let low18 = (lo_base + lo) as u32;
+                    let low18 = if ctx.miri() { ((lo * 2731 + ctx.seed * 97) % (1 << 18)) as u32 } else { (lo_base + lo) as u32 };
                     let w = (pat << 16) | (low18 & 0x3FFFF);
                     check_word(ctx, w, &mut accepted);
                     if i < 4 {
@@ -322,7 +336,7 @@ impl Monitor for M {
             ctx.evals(if i < 4 && !(ctx.tier == Tier::Thorough && !light) { n * 5 } else { n });
         } else {
             ctx.obs("chunks.typeinfo_random_blocks");
-            let n = if light { 512 } else { RANDOM_BLOCK };
+            let n = if ctx.miri() { 48 } else if light { 512 } else { RANDOM_BLOCK };
             for k in 0..n {
                 // random words, biased to words that name exactly one kind so that the accepted
                 // side is exercised as heavily as the rejected side
